@@ -80,7 +80,8 @@ def judge(v, records, sc, tag):
                 detail = "%s %s on %s (%s; tokens %s, script %s): %s" % (rq["verb"], rq["url"], eng, rq["kind"], rq.get("toks"), rq.get("script"),
                                                                            json.dumps(ev.get("obs", ev.get("outcomes")))[:500])
                 hyphen = any(p["in"] == "path" and "-" in p["wire"] for p in (rq.get("handler") or {}).get("params", []))
-                viol.append({"prop": prop, "id": cid, "what": what, "detail": detail, "engine": eng, "kind": rq["kind"], "url": rq["url"], "toks": rq.get("toks") or [], "hyphenPath": hyphen})
+                slash_arg = any("/" in str(a) for a in ((ev.get("obs") or {}).get("args") or []))
+                viol.append({"prop": prop, "id": cid, "what": what, "detail": detail, "engine": eng, "kind": rq["kind"], "url": rq["url"], "toks": rq.get("toks") or [], "hyphenPath": hyphen, "slashArg": slash_arg})
     runs = sum(1 for x in lines if x.startswith('{"ev":"Run"'))
     cmps = n - runs
     kinds = collections.Counter()
@@ -99,7 +100,8 @@ def _hyphen_path(f):
 KNOWN_RULES = [
     ("fiber-hyphen-in-path-param", {"C02", "C03", "C05", "C12"}, lambda f: _hyphen_path(f) and (f.get("engine") in ("fiber", "cmp"))),
     # (signature, property set, predicate on a finding)
-    ("echo-trailing-param-matches-slashes", {"C02", "C12"}, lambda f: f.get("engine") == "echo" and f.get("kind") == "probe" and "/zz/extra" in f.get("url", "")),
+    # (a probe that reached a handler on echo with a path argument containing '/': the trailing {param} swallowed further segments)
+    ("echo-trailing-param-matches-slashes", {"C02", "C12"}, lambda f: f.get("engine") == "echo" and f.get("kind") == "probe" and ("/zz/extra" in f.get("url", "") or f.get("slashArg"))),
     ("fiber-empty-header-is-absent", {"C12"}, lambda f: f.get("kind") == "token" and "empty" in f.get("toks", [])),
     # the same engine behaviour seen from C05: an OPTIONAL (pointer) non-string header sent with an empty value is not answered 422 on fiber
     ("fiber-empty-header-is-absent", {"C05"}, lambda f: f.get("engine") == "fiber" and f.get("kind") == "token" and "empty" in f.get("toks", []) and "not answered 422" in f.get("what", "")),
